@@ -24,9 +24,9 @@ theorem covers_of_k0 (hf : ι → Nat → Option (Nat × Nat)) (X off : Nat) (c 
   intro x _ hh _
   simp [h, indices, allSet]
 
-theorem roundUp64_pos (n : Nat) (h : n ≠ 0) : 0 < roundUp64 n := by unfold roundUp64; omega
+theorem roundUp64_pos (n : Nat) (h : n ≠ 0) : 0 < roundUp64 n ∧ roundUp64 n % 64 = 0 := by unfold roundUp64; omega
 
-theorem capPos_setFilter {w : World} (hp : CapPos w) (v : Nat) (f : Filter) (hf : 0 < f.capBits) : CapPos (w.setFilter v f) := by
+theorem capPos_setFilter {w : World} (hp : CapPos w) (v : Nat) (f : Filter) (hf : 0 < f.capBits ∧ f.capBits % 64 = 0) : CapPos (w.setFilter v f) := by
   intro v' f' h
   simp only [World.setFilter] at h
   by_cases e : v' = v
